@@ -92,6 +92,20 @@ NodeT(F, p) == IF p = <<>> THEN "dir" ELSE IF p \in DOMAIN F THEN F[p].t ELSE "n
 (* Path strings.  [abs, comps, trail] is the string                        *)
 (*     (abs ? "/" : "") . join(comps, "/") . (trail ? "/" : "")            *)
 (* an empty component gives a repeated slash.                              *)
+(* Generated strings carry two more fields the walk never looks at, because *)
+(* the kernel does not either:                                             *)
+(*   pad  n extra slashes at the first separator (long names; a run of     *)
+(*        slashes is one separator)                                        *)
+(*   mem  [b, gap] where the NUL-terminated string lies in the caller's    *)
+(*        memory relative to a page boundary B: b = "static" (an ordinary  *)
+(*        buffer), "in" (inside a page), "end" (the NUL is the last byte   *)
+(*        before B), "one"/"mid"/"last" (B falls after the first byte / in *)
+(*        the middle / before the last byte), "nul" (only the NUL lies     *)
+(*        behind B); gap: the page after the one holding the NUL is not    *)
+(*        mapped.  The kernel reads the whole string wherever it lies, so  *)
+(*        must whoever presents it to the policy.  (A name is at most      *)
+(*        PATH_MAX - 1 = 4095 bytes: it can cross at most one 4 KiB        *)
+(*        boundary.)                                                       *)
 
 WellFormed(ps) ==
   /\ ~(~ps.abs /\ ps.comps # <<>> /\ ps.comps[1] = "")   \* would be absolute
